@@ -109,7 +109,98 @@ func runC13(c *Check, rng *rand.Rand) {
 			}
 		}
 	}
+	// several redirected requests in flight at the same time (same pipeline and
+	// several clients), all kinds mixed
+	for ep := 0; ep < c.Pick(12, 200); ep++ {
+		if !env.P.Alive() {
+			c.Violate(Violation{Class: "proxy-died", Shape: "concurrent-redirects", Detail: env.P.PanicLine(), Witness: env.P.OutputTail(2500)})
+			return
+		}
+		c13concurrent(c, rng, env, w)
+	}
 	c.MinEvals = 30
+}
+
+func c13concurrent(c *Check, rng *rand.Rand, env *Env, w *c13world) {
+	nclients := 1 + rng.Intn(3)
+	type cstate struct {
+		cl *Client
+		p  []*PReq
+	}
+	var cs []*cstate
+	var slots []int
+	kindsUsed := map[string]int{}
+	for ci := 0; ci < nclients; ci++ {
+		cl, err := env.Dial()
+		must(err, "dial")
+		st := &cstate{cl: cl}
+		n := 2 + rng.Intn(5)
+		for i := 0; i < n; i++ {
+			slot := rng.Intn(16384)
+			owner := env.T.Owner(slot).Node
+			var others []*Node
+			for _, tn := range env.T.Nodes {
+				if tn.Node != owner {
+					others = append(others, tn.Node)
+				}
+			}
+			rng.Shuffle(len(others), func(a, b int) { others[a], others[b] = others[b], others[a] })
+			kind := []string{"ask", "ask", "moved", "moved-then-ask"}[rng.Intn(4)]
+			kindsUsed[kind]++
+			w.mu.Lock()
+			if _, dup := w.redir[slot]; !dup {
+				w.redir[slot] = &slotRedir{kind: kind, from: owner, to: others[0], to2: others[1]}
+				slots = append(slots, slot)
+			}
+			w.mu.Unlock()
+			k := Key(slot, newToken("y"))
+			st.p = append(st.p, &PReq{Kind: "get", Keys: []string{k}, Bytes: Req("GET", k), Expect: BulkReply([]byte("v:" + k))})
+		}
+		cs = append(cs, st)
+	}
+	for _, st := range cs {
+		st.cl.Send(concatReqs(st.p))
+	}
+	ok := true
+	for _, st := range cs {
+		if !st.cl.WaitReplies(len(st.p), 4*time.Second) {
+			ok = false
+		}
+	}
+	if !ok && env.P.Alive() {
+		env.Barrier()
+		time.Sleep(time.Second)
+		env.Barrier()
+	}
+	if !env.P.Alive() {
+		c.Violate(Violation{Class: "proxy-died", Shape: "concurrent-redirects", Detail: "several redirected requests in flight at once: " + env.P.PanicLine(),
+			Witness: map[string]interface{}{"redirect_kinds": kindsUsed, "stderr": env.P.OutputTail(2500)}})
+	}
+	c.Eval(1)
+	c.Distinct(fmt.Sprintf("concurrent/%d/%v", nclients, kindsUsed))
+	for _, st := range cs {
+		s := st.cl.Snapshot()
+		for _, is := range checkPipeline(st.p, s) {
+			c.Violate(Violation{Class: "redirect/" + is.Class, Shape: "concurrent-redirects", Detail: is.Detail,
+				Witness: map[string]interface{}{"redirect_kinds": kindsUsed, "pipeline": reqStrings(st.p), "received": valStrings(s.Replies)}})
+		}
+		st.cl.Close()
+		c.Count("redirected_requests_checked", int64(len(st.p)))
+	}
+	w.mu.Lock()
+	for _, s := range slots {
+		delete(w.redir, s)
+	}
+	for _, st := range cs {
+		for _, r := range st.p {
+			if w.loops[r.Keys[0]] {
+				c.Violate(Violation{Class: "redirect-does-not-terminate", Shape: "concurrent-redirects", Detail: "a redirected request bounced more than 8 times"})
+			}
+			delete(w.bounces, r.Keys[0])
+			delete(w.loops, r.Keys[0])
+		}
+	}
+	w.mu.Unlock()
 }
 
 func c13episode(c *Check, rng *rand.Rand, env *Env, w *c13world, kind string, split bool, plen, pos int) {
